@@ -804,7 +804,10 @@ def gen_real_inbound(rng, i):
         steps.append("inject:" + p.hex())
         if rng.chance(0.4):
             steps.append(f"sleep:{rng.choice([1, 3])}")
-    steps.append("sleep:150")
+    # (no fixed deadline: on a loaded machine the client may take longer than any fixed nap; then a short nap in which a
+    # duplicate or a late extra message would still show)
+    steps.append(f"waitpub:{n}")
+    steps.append("sleep:60")
     rplan = [rng.choice(["f1", "f2", "f7", "f100", "b"]) for _ in range(rng.choice([0, 0, 4, 10]))]
     head = f"drv.run kind={kind} v={v}" + (f" rplan={','.join(rplan)}" if rplan else "")
     return head + " | " + ";".join(steps), kind, tags
